@@ -79,6 +79,10 @@ func (provider) GetTxBondAspects(ctx context.Context, contract common.Address, p
 			return nil, errors.New("out of gas")
 		case "revert":
 			return nil, avm.ErrExecutionReverted
+		case "wrapped":
+			// an error that merely wraps the revert sentinel is not the sentinel: the EVM compares
+			// by identity everywhere, so this is an ordinary (gas-forfeiting) failure
+			return nil, fmt.Errorf("binding store: %w", avm.ErrExecutionReverted)
 		default:
 			return nil, errBindingStore
 		}
